@@ -92,12 +92,36 @@ def _pure_rhs(e):
     return True
 
 
-def sorted_root_lists(fn):
-    """names of local lists that are only handed, as the root collection, to a *Graph(...) constructor (FortranGraph.__init__ sorts its roots)"""
+def sorted_root_lists(fn, tree=None, depth=0):
+    """names of local lists that are only handed, as the root collection, to a *Graph(...) constructor (FortranGraph.__init__ sorts its roots) - in this function, or, for a list
+    that a private helper returns, at every place in the module where the helper's result is bound (`a, b = self._helper()` ... `ModuleGraph(a, ..)`)"""
     names = set()
     for n in ast.walk(fn):
         if isinstance(n, ast.Call) and isinstance(n.func, ast.Name) and n.func.id.endswith("Graph") and n.args and isinstance(n.args[0], ast.Name):
             names.add(n.args[0].id)
+    if tree is not None and depth < 2 and fn.name.startswith("_") and not fn.name.startswith("__"):
+        rets = [r.value for r in ast.walk(fn) if isinstance(r, ast.Return) and r.value is not None]
+        shapes = {tuple(e.id if isinstance(e, ast.Name) else None for e in (r.elts if isinstance(r, ast.Tuple) else [r])) for r in rets}
+        if len(shapes) == 1:
+            shape = next(iter(shapes))
+            callers = [f for f in ast.walk(tree) if isinstance(f, ast.FunctionDef) and f is not fn]
+            bound, escapes = [], False
+            for f in callers:
+                for st in ast.walk(f):
+                    for c in ast.walk(st) if isinstance(st, ast.stmt) else []:
+                        if isinstance(c, ast.Call) and ((isinstance(c.func, ast.Attribute) and c.func.attr == fn.name) or (isinstance(c.func, ast.Name) and c.func.id == fn.name)):
+                            if isinstance(st, ast.Assign) and st.value is c and len(st.targets) == 1:
+                                t = st.targets[0]
+                                tn = tuple(e.id if isinstance(e, ast.Name) else None for e in (t.elts if isinstance(t, ast.Tuple) else [t]))
+                                if len(tn) == len(shape):
+                                    bound.append((f, tn))
+                                    continue
+                            if isinstance(st, (ast.Assign, ast.Expr, ast.Return)) and any(x is c for x in ast.walk(st)):
+                                escapes = escapes or not (isinstance(st, ast.Assign) and st.value is c)
+            if bound and not escapes:
+                for k, local in enumerate(shape):
+                    if local and all(tn[k] is not None and tn[k] in sorted_root_lists(f, tree, depth + 1) for f, tn in bound):
+                        names.add(local)
     return names
 
 
@@ -240,7 +264,7 @@ def obligations(prop="C12"):
                         status, why = PROVED, "iterates sorted(...)"
                     elif kind == "GeneratorExp" or (kind == "ListComp" and _consumed_order_free(fn, n)):
                         status, why = PROVED, "result consumed by an order-insensitive reduction (any/all/sum/set/sorted/min/max/len)"
-                    elif body is not None and body_order_insensitive(body, sorted_root_lists(fn)):
+                    elif body is not None and body_order_insensitive(body, sorted_root_lists(fn, tree)):
                         status, why = PROVED, "loop body is order-insensitive (only set additions / counters / constant flags)"
                     else:
                         status, why = REFUTED, "unordered iteration with an order-sensitive body (appends, numbering, output)"
@@ -305,6 +329,22 @@ def structural(prop="C12"):
                 out.append(OR(id=f"{prop}.S.{mod.split('.')[-1]}.toposort_flatten.call{n}", status=REFUTED if bad else PROVED, kind="S", role="pre", backend="ast", target=mod,
                               desc="toposort_flatten is called with its deterministic tie-breaking (sort=True, the default): entities of one dependency level come out ordered by __lt__"))
                 n += 1
+    # hash values differ from run to run (strings are salted by PYTHONHASHSEED, objects hash by address): the only place one may be computed is a __hash__ method, for the use of
+    # sets and dicts; anywhere else it is a number on its way into the output
+    nh = 0
+    for mod in MODULES:
+        _, tree = loader.module_source(mod)
+        inside = {id(c) for f in ast.walk(tree) if isinstance(f, ast.FunctionDef) and f.name == "__hash__" for c in ast.walk(f)}
+        for c in ast.walk(tree):
+            if isinstance(c, ast.Call) and isinstance(c.func, ast.Name) and c.func.id == "hash" and id(c) not in inside:
+                r = OR(id=f"{prop}.S.{mod.split('.')[-1]}.hash_value_outside___hash__.site{nh}", status=REFUTED, kind="S", role="pre", backend="ast", target=mod,
+                       desc=f"`{ast.unparse(c)[:60]}` (line {c.lineno}): a hash value is computed outside a __hash__ method")
+                r.witness = {"call": ast.unparse(c), "line": c.lineno}
+                r.detail = "the value changes with PYTHONHASHSEED / object addresses; whatever is derived from it (a colour, an order, a name) changes from run to run"
+                out.append(r)
+                nh += 1
+    out.append(OR(id=f"{prop}.S.no_hash_value_outside___hash__", status=PROVED if nh == 0 else REFUTED, kind="S", role="pre", backend="ast", target="ford/*.py",
+                  desc=f"no call of the builtin hash() outside __hash__ methods in {len(MODULES)} modules"))
     # stale output cannot survive: the first file-system effects of writeout remove the output directory
     fn = loader.find_def("ford.output", "Documentation.writeout")
     first_effect = None
@@ -377,6 +417,18 @@ def serial_parallel_agreement(prop="C12"):
     if len(br) != 1 or not br[0].orelse:
         return [OR(id=oid, status=UNKNOWN, kind="S", target="ford.graphs.GraphManager.output_graphs", detail="`if njobs == 0: ... else: ...` not found")]
     serial, par = set(), set()
+    # a branch may hand its work to private methods of the class (`self._output_entity_graphs()`): their bodies are read as part of the branch
+    _, gtree = loader.module_source("ford.graphs")
+    helpers = {m.name: m for c in gtree.body if isinstance(c, ast.ClassDef) and c.name == "GraphManager" for m in c.body if isinstance(m, ast.FunctionDef) and m.name.startswith("_")}
+
+    def expand(stmts, depth=0):
+        out = list(stmts)
+        for st in stmts:
+            for c in ast.walk(st):
+                if isinstance(c, ast.Call) and isinstance(c.func, ast.Attribute) and isinstance(c.func.value, ast.Name) and c.func.value.id == "self" and c.func.attr in helpers and depth < 3:
+                    out += expand(helpers[c.func.attr].body, depth + 1)
+        return out
+    br[0].body, br[0].orelse = expand(br[0].body), expand(br[0].orelse)
     for loop in [n for n in ast.walk(ast.Module(body=br[0].body, type_ignores=[])) if isinstance(n, ast.For)]:
         coll = ast.unparse(loop.iter)
         var = loop.target.id if isinstance(loop.target, ast.Name) else None
@@ -393,6 +445,9 @@ def serial_parallel_agreement(prop="C12"):
                 if isinstance(e, ast.Attribute) and isinstance(e.value, ast.Name) and e.value.id == var and e.attr.endswith("graph"):
                     par.add((coll, e.attr))
     ok = bool(serial) and serial == par
+    if not serial or not par:
+        return [OR(id=oid, status=UNKNOWN, kind="S", role="post", backend="ast", target="ford.graphs.GraphManager.output_graphs",
+                   detail=f"the graphs saved by the {'serial' if not serial else 'worker'} branch were not found in the form this obligation reads (loops over `x.<g>graph.create_svg(..)` / tuples `(x.<g>graph, ..)`)")]
     r = OR(id=oid, status=PROVED if ok else REFUTED, kind="S", role="post", backend="ast", target="ford.graphs.GraphManager.output_graphs",
            desc=f"the serial branch and the worker branch save the same {len(serial)} (collection, graph) pairs")
     if not ok:
